@@ -483,6 +483,37 @@ func BuildBase(name string, cfg Config, seed uint32) (*Base, error) {
 			bb.err = fmt.Errorf("base EM2: compaction left %d segments", len(bb.s.DB.VerifSegments()))
 		}
 		return bb.finish([]string{"a", "b", "c", "d"}, nil)
+	case "RU":
+		// ROLL: segment ids Reused out of sequence order. Five segments are written, the first three become garbage and
+		// are compacted away, the log then reuses ids 0 and 1 with fresh sequence ids: files 00000-6 (full), 00001-7
+		// (current, one free record), 00003-4, 00004-5. File-name order is not sequence order; the NEXT rollover
+		// after a restart must get sequence id 8.
+		bb.key("a", 0x11110000)
+		bb.key("b", 0x22220001)
+		bb.key("c", 0x11110000)
+		bb.key("d", 0x33330002)
+		bb.key("e", 0x44440003)
+		bb.key("n", 0x55550004)
+		for _, k := range []string{"a", "b", "c", "a", "b", "c", "d", "e", "n", "a", "b", "c", "d"} {
+			bb.put(k)
+		}
+		if bb.err == nil {
+			bb.err = bb.s.Apply(Op{Kind: Compact})
+		}
+		for _, k := range []string{"a", "b", "c", "a", "b"} {
+			bb.put(k)
+		}
+		if bb.err == nil {
+			var names []string
+			for _, sg := range bb.s.DB.VerifSegments() {
+				names = append(names, sg.Name)
+			}
+			sort.Strings(names)
+			if got := strings.Join(names, " "); got != "00000-6.psg 00001-7.psg 00003-4.psg 00004-5.psg" {
+				bb.err = fmt.Errorf("base RU: segments %s", got)
+			}
+		}
+		return bb.finish([]string{"a", "b", "c", "d", "e", "n"}, nil)
 	case "LG":
 		// a sealed segment with a LEGACY file name (no sequence id: "00000.psg", still accepted when opening) and
 		// a current segment with a modern name
